@@ -103,41 +103,197 @@ def Members.src (m : Members) : List Int := iter selFirstMin m.inc m.exc
 inductive Op where
   | addRRule (l : List Int) | addRDate (d : Int) | addExRule (l : List Int) | addExDate (d : Int)
   | q (q : Query)        -- iterPartial k = `.take k`, iterFull = `.iterAll`, count, between, after, before, …
+  | open_ (k : Nat)      -- `it = iter(s); list(islice(it, k))`, the iterator is KEPT
+  | resume (j k : Nat)   -- `list(islice(it_j, k))` on the j-th kept iterator
   deriving DecidableEq, Repr, Inhabited
 
+/-- a kept iterator.  Cached set: the generation (number of invalidations at creation) whose cache
+    list / generator it is bound to, and its thread id in that generation's machine.  Uncached set:
+    the sequence its `_iter()` generator was bound to at the first `next()`, position, finished flag. -/
+structure Handle where
+  gen : Nat := 0
+  tid : Nat := 0
+  usrc : Option (List Int) := none
+  upos : Nat := 0
+  udone : Bool := false
+  deriving DecidableEq, Repr, Inhabited
+
+/-- the set object.  `cur` is the machine of the current generation; `cur.sh` also carries the
+    object's attributes `_cache_complete`, `_cache_gen is None`, `_cache_lock`, `_len` (for an
+    uncached set only `cur.sh.src` and `cur.sh.len` are meaningful).  `old` are the invalidated
+    generations, newest first: their cache lists and generators survive only through iterators
+    created before the invalidation. -/
 structure RSetState where
   m : Members := {}
   cacheOn : Bool
-  sh : Cache.Shared       -- the cache of the set object (meaningful when `cacheOn`); `sh.len` is `_len` in both modes
+  cur : Cache.State
+  old : List Cache.State := []
+  handles : List Handle := []
   deriving Repr, Inhabited
 
-def newState (cacheOn : Bool) : RSetState := { cacheOn := cacheOn, sh := Cache.initShared [] }
+def newState (cacheOn : Bool) : RSetState :=
+  { cacheOn := cacheOn, cur := { sh := Cache.initShared [], its := [] } }
 
-/-- `_invalidate_cache()` after every mutator: empty cache, fresh generator over the members as they are now, `_len = None` -/
+/-- `_invalidate_cache()` after every mutator: `self._cache = []`, `self._cache_gen = self._iter()`
+    over the members as they are now, `_cache_complete = False`, lock released, `_len = None`.
+    The previous list and generator stay reachable from iterators created earlier. -/
 def invalidate (st : RSetState) (m : Members) : RSetState :=
-  { st with m := m, sh := Cache.initShared m.src }
+  { st with m := m, old := st.cur :: st.old, cur := { sh := Cache.initShared m.src, its := [] } }
 
-/-- run one consumer alone to completion on the machine -/
-def soloRun (s : Cache.State) : Nat → Cache.State
+def threadFuel (sh : Cache.Shared) : Nat := 100 + 60 * (sh.src.length + 2)
+
+/-- run thread `t` alone until it has finished -/
+def runThread (s : Cache.State) (t : Cache.Tid) : Nat → Cache.State
   | 0 => s
-  | fuel + 1 => match Cache.step s 0 with
+  | fuel + 1 => match Cache.step s t with
     | none => s
-    | some s' => soloRun s' fuel
+    | some s' => runThread s' t fuel
 
-def soloFuel (sh : Cache.Shared) : Nat := 100 + 60 * (sh.src.length + 2)
+def yieldedLen (s : Cache.State) (t : Cache.Tid) : Nat :=
+  match s.its[t]? with | some it => it.yielded.length | none => 0
 
-def runQuery (sh : Cache.Shared) (q : Query) : Cache.Shared × Option Res :=
-  let s := soloRun { sh := sh, its := [{ q := q }] } (soloFuel sh)
-  (s.sh, match s.its[0]? with | some it => it.res | none => none)
+/-- one `next()` on thread `t`: run it until its consumer has received one more value (`some v`),
+    or it has finished — StopIteration or an escaped exception (`none`) -/
+def nextVal (s : Cache.State) (t : Cache.Tid) : Nat → Cache.State × Option Int
+  | 0 => (s, none)
+  | fuel + 1 => match Cache.step s t with
+    | none => (s, none)
+    | some s' =>
+      if yieldedLen s t < yieldedLen s' t then
+        (s', match s'.its[t]? with | some it => it.yielded.getLast? | none => none)
+      else nextVal s' t fuel
+
+/-- `list(islice(it, k))`: up to k calls of next(), stopping at the first StopIteration / exception -/
+def takeVals (s : Cache.State) (t : Cache.Tid) : Nat → List Int → Cache.State × List Int
+  | 0, acc => (s, acc)
+  | k + 1, acc =>
+    match nextVal s t (threadFuel s.sh) with
+    | (s', some v) => takeVals s' t k (acc ++ [v])
+    | (s', none) => (s', acc)
+
+def isDone (s : Cache.State) (t : Cache.Tid) : Bool :=
+  match s.its[t]? with | some it => it.pc == .done | none => true
+
+/-- what `list(islice(it, k))` evaluates to: the values, or the exception that escaped the generator
+    during THIS call (`s0` = state before; a generator that already finished just raises StopIteration) -/
+def takeObs (s0 s : Cache.State) (t : Cache.Tid) (vals : List Int) : Res :=
+  if isDone s0 t then .list vals else
+  match s.its[t]? with
+  | some it => match it.crash with | some e => .err e | none => .list vals
+  | none => .list vals
+
+/-- the statements of `__iter__` (and the thread start) -/
+def inDispatch : Cache.PC → Bool
+  | .start | .entry | .l106 | .l107 | .l108 | .l111 => true
+  | _ => false
+
+/-- `iter(self)`: `__iter__` (lines 106-111) runs now; the generator body does not -/
+def runCreate (s : Cache.State) (t : Cache.Tid) : Nat → Cache.State
+  | 0 => s
+  | fuel + 1 =>
+    match s.its[t]? with
+    | none => s
+    | some it =>
+      if inDispatch it.pc then
+        match Cache.step s t with
+        | none => s
+        | some s' => runCreate s' t fuel
+      else s
+
+/-- a query method executed to its end on a cached set -/
+def runQuery (s : Cache.State) (q : Query) : Cache.State × Option Res :=
+  let t := s.its.length
+  let s' := runThread { s with its := s.its ++ [{ q := q }] } t (threadFuel s.sh)
+  (s', match s'.its[t]? with | some it => it.res | none => none)
 
 /-- a query on an uncached set: `iter(self)` is `self._iter()`; `_len` is published when a generator runs to its end -/
 def runUncached (sh : Cache.Shared) (q : Query) : Cache.Shared × Option Res :=
-  let src := sh.src
-  let known := match q with | .count => sh.len.isSome | _ => false
-  if known then (sh, some (Cache.answer sh .count []))
+  match q with
+  | .count =>                           -- `if self._len is None: for x in self: pass` ; `return self._len`
+    match sh.len with
+    | some n => (sh, some (.nat n))
+    | none => ({ sh with len := some sh.src.length }, some (.nat sh.src.length))
+  | q => (if stops q sh.src then sh else { sh with len := some sh.src.length }, some (gen q sh.src))
+
+/-- an iterator of an invalidated generation sees ITS cache list and generator, but the object's
+    current `_cache_complete`, `_cache_gen`, `_cache_lock`, `_len` -/
+def assemble (own obj : Cache.Shared) : Cache.Shared :=
+  { obj with src := own.src, cache := own.cache, genPos := own.genPos }
+
+/-- a statement of an iterator of an INVALIDATED generation.  `finished`: that generation's generator
+    had already run to its end; `next()` on a finished generator raises StopIteration again WITHOUT
+    re-executing `self._len = total` (in the live machine this never happens: `_cache_complete` is
+    tested first) -/
+def stepStale (finished : Bool) (s : Cache.State) (t : Cache.Tid) : Option Cache.State :=
+  match Cache.step s t with
+  | none => none
+  | some s' =>
+    let at138 := match s.its[t]? with | some it => it.pc == .l138 | none => false
+    if finished && at138 && (s.sh.src[s.sh.genPos]?).isNone then
+      some { s' with sh := { s'.sh with len := s.sh.len } }
+    else some s'
+
+def nextValStale (fin : Bool) (s : Cache.State) (t : Cache.Tid) : Nat → Cache.State × Option Int
+  | 0 => (s, none)
+  | fuel + 1 => match stepStale fin s t with
+    | none => (s, none)
+    | some s' =>
+      if yieldedLen s t < yieldedLen s' t then
+        (s', match s'.its[t]? with | some it => it.yielded.getLast? | none => none)
+      else nextValStale fin s' t fuel
+
+def takeValsStale (fin : Bool) (s : Cache.State) (t : Cache.Tid) : Nat → List Int → Cache.State × List Int
+  | 0, acc => (s, acc)
+  | k + 1, acc =>
+    match nextValStale fin s t (threadFuel s.sh) with
+    | (s', some v) => takeValsStale fin s' t k (acc ++ [v])
+    | (s', none) => (s', acc)
+
+/-- `list(islice(it, k))` on a kept iterator of a cached set -/
+def resumeCached (st : RSetState) (j : Nat) (h : Handle) (k : Nat) : RSetState × Option Res :=
+  let curGen := st.old.length
+  if h.gen = curGen then
+    let (s', vals) := takeVals st.cur h.tid k []
+    ({ st with cur := s' }, some (takeObs st.cur s' h.tid vals))
   else
-    let r := match q with | .count => Res.nat src.length | _ => gen q src
-    (if stops q src then sh else { sh with len := some src.length }, some r)
+    let pos := curGen - 1 - h.gen
+    match st.old[pos]? with
+    | none => (st, none)
+    | some o =>
+      match o.its[h.tid]? with
+      | none => (st, none)
+      | some it =>
+        if it.pc == .l125 then
+          -- the generator body has not started: its first statements read the CURRENT `_cache_gen` / `_cache`
+          let t := st.cur.its.length
+          let s0 : Cache.State := { st.cur with its := st.cur.its ++ [it] }
+          let (s', vals) := takeVals s0 t k []
+          ({ st with cur := s', handles := st.handles.set j { h with gen := curGen, tid := t } },
+           some (takeObs s0 s' t vals))
+        else
+          -- `o.sh.len` of an invalidated generation records whether its generator has finished
+          let fin := o.sh.len.isSome
+          let s0 : Cache.State := { sh := assemble o.sh st.cur.sh, its := o.its }
+          let (s', vals) := takeValsStale fin s0 h.tid k []
+          let fin' := if fin then o.sh.len else (if s'.sh.len != s0.sh.len then s'.sh.len else none)
+          let o' : Cache.State :=
+            { sh := { o.sh with cache := s'.sh.cache, genPos := s'.sh.genPos, len := fin' }, its := s'.its }
+          let obj := st.cur.sh
+          let obj' : Cache.Shared :=
+            { src := obj.src, cache := obj.cache, genPos := obj.genPos, complete := s'.sh.complete,
+              genNone := s'.sh.genNone, lock := s'.sh.lock, len := s'.sh.len }
+          ({ st with cur := { st.cur with sh := obj' }, old := st.old.set pos o' }, some (takeObs s0 s' h.tid vals))
+
+/-- `list(islice(it, k))` on a kept `self._iter()` generator of an uncached set -/
+def resumeUncached (st : RSetState) (j : Nat) (h : Handle) (k : Nat) : RSetState × Option Res :=
+  if k = 0 || h.udone then (st, some (.list []))
+  else
+    let src := h.usrc.getD st.cur.sh.src          -- bound at the first next()
+    let vals := (src.drop h.upos).take k
+    let finished := decide (vals.length < k)         -- ran into the end: `self._len = total`
+    let h' : Handle := { h with usrc := some src, upos := h.upos + vals.length, udone := finished }
+    let sh' := if finished then { st.cur.sh with len := some src.length } else st.cur.sh
+    ({ st with cur := { st.cur with sh := sh' }, handles := st.handles.set j h' }, some (.list vals))
 
 def applyOp (st : RSetState) : Op → RSetState × Option Res
   | .addRRule l => (invalidate st { st.m with rrules := st.m.rrules ++ [l] }, none)
@@ -145,8 +301,26 @@ def applyOp (st : RSetState) : Op → RSetState × Option Res
   | .addExRule l => (invalidate st { st.m with exrules := st.m.exrules ++ [l] }, none)
   | .addExDate d => (invalidate st { st.m with exdates := st.m.exdates ++ [d] }, none)
   | .q q =>
-    let (sh', r) := if st.cacheOn then runQuery st.sh q else runUncached st.sh q
-    ({ st with sh := sh' }, r)
+    if st.cacheOn then
+      let (s', r) := runQuery st.cur q
+      ({ st with cur := s' }, r)
+    else
+      let (sh', r) := runUncached st.cur.sh q
+      ({ st with cur := { st.cur with sh := sh' } }, r)
+  | .open_ k =>
+    let j := st.handles.length
+    if st.cacheOn then
+      let t := st.cur.its.length
+      let s1 := runCreate { st.cur with its := st.cur.its ++ [{ q := .iterAll }] } t 8
+      let h : Handle := { gen := st.old.length, tid := t }
+      resumeCached { st with cur := s1, handles := st.handles ++ [h] } j h k
+    else
+      let h : Handle := {}
+      resumeUncached { st with handles := st.handles ++ [h] } j h k
+  | .resume j k =>
+    match st.handles[j]? with
+    | none => (st, none)
+    | some h => if st.cacheOn then resumeCached st j h k else resumeUncached st j h k
 
 /-- run a history, collecting the observations -/
 def runOps : RSetState → List Op → List (Option Res)
